@@ -59,7 +59,7 @@ def main(argv=None):
         results.append(run_shard(mod, prop, a.tier, a.seed, 0, 1, replay=rep))
     else:
         shards = a.shards or (getattr(mod, "SHARDS_QUICK", 2) if a.tier == "quick" else getattr(mod, "SHARDS_THOROUGH", 16))
-        timeout = getattr(mod, "TIMEOUT_QUICK", 900) if a.tier == "quick" else getattr(mod, "TIMEOUT_THOROUGH", 5400)
+        timeout = getattr(mod, "TIMEOUT_QUICK", 900) if a.tier == "quick" else getattr(mod, "TIMEOUT_THOROUGH", 2700)
         tmp = tempfile.mkdtemp(prefix=f"lvf-{prop}-")
         procs = []
         try:
